@@ -103,7 +103,21 @@ def edge_filter_for(g, facts):
         if isinstance(op, ast.NotIn):
           return v not in vals
     return None
-  verdict = {n: decide(n.expr) for n in g.nodes if n.kind == 'test'}
+  rd0 = dataflow.Reaching(g)
+
+  def decide_at(n):
+    v_ = decide(n.expr)
+    if v_ is None:
+      # a named condition (`one_sided = tails == 1 ... if not one_sided:`) is looked through
+      ex_ = rd0.expand(n, n.expr, keep=tuple(facts))[0]
+      neg_ = False
+      while isinstance(ex_, ast.UnaryOp) and isinstance(ex_.op, ast.Not):
+        ex_, neg_ = ex_.operand, not neg_
+      v_ = decide(ex_)
+      if v_ is not None and neg_:
+        v_ = not v_
+    return v_
+  verdict = {n: decide_at(n) for n in g.nodes if n.kind == 'test'}
 
   def ok(a, b, lab):
     if lab == 'exc':
@@ -251,6 +265,29 @@ def tbr_aggregation(repo, rep, rule):
       else:
         rep.undecided(rule, '_construct_analysis_data', 'one of %d stores to self.analysis_data has an unrecognised shape: %s' % (len(st), t[:80]), con.loc(st0.ast))
       continue
+    if not good and m is None:
+      # not of the form data.groupby(K).agg(A): decided only by what is recognisable in it
+      ops = _feeding_calls(ctx, st0, st0.ast.value)
+      if not (ops & ORDERING_OPS):
+        rep.violation(rule, con.qualname, t[:160],
+                      'the analysis data are stored as `%s` with no grouping or sorting by (group, date) on the way from the raw rows (operations: %s): the series keep the order of the input rows'
+                      % (t[:100], ', '.join(sorted(ops)) or 'none'), con.loc(st0.ast))
+      else:
+        rep.undecided(rule, '_construct_analysis_data', 'the analysis data are built as `%s`: not the recognised groupby(keys).agg(sums) form' % t[:100], con.loc(st0.ast))
+      continue
+    if not good and m is not None:
+      # recognised wrong: sort=False / as_index=False, or keys / aggregation that are closed terms but different
+      al_ = au.aliens(ex, {data})
+      if al_ and not (sort_off or asidx):
+        rep.undecided(rule, '_construct_analysis_data', 'the analysis data are built as `%s`, which reads unresolved names (%s)' % (t[:100], ', '.join(al_)), con.loc(st0.ast))
+        continue
+      # keyword spellings of the same call: agg(func={...}) ; attribute tables for the keys
+      aargs2 = re.sub(r'^func=', '', aargs.replace(' ', ''))
+      if keys_ok and not sort_off and not asidx and aargs2 in ("{self.target:'sum',self.df_names.period:'max'}", "{self.df_names.period:'max',self.target:'sum'}"):
+        good = True
+      elif not keys_ok and ('attrgetter' in gargs or 'getattr' in gargs or 'for ' in gargs):
+        rep.undecided(rule, '_construct_analysis_data', 'the group keys `%s` are computed: not followed' % gargs[:80], con.loc(st0.ast))
+        continue
     rep.check(good, rule, 'analysis data = per-(group, date) sums, sorted by the keys', con.qualname, t[:160],
               'the analysis data are built as `%s`: %s' % (t[:120], why), con.loc(st0.ast))
   # label-based selection of the two groups
@@ -282,6 +319,51 @@ def tbr_aggregation(repo, rep, rule):
               dm.loc())
 
 
+DVOC = {'rescale', 'one_to_t', 'var_params', 'causal_response', 'len_test', 'periods', 't', 'cntrl_mat', 'time'}
+
+
+def _strip_shape(e):
+  """Drop wrappers that only change the array shape/type, at every level."""
+  def core(x):
+    while True:
+      if isinstance(x, ast.Call) and norm(x.func) in ('np.array', 'numpy.array', 'np.asarray') and len(x.args) == 1 and not x.keywords:
+        x = x.args[0]
+      elif isinstance(x, ast.Call) and isinstance(x.func, ast.Attribute) and x.func.attr in ('reshape', 'flatten', 'ravel', 'squeeze'):
+        x = x.func.value
+      else:
+        return x
+
+  def deep(x):
+    x = core(dataflow.clone(x))
+    return dataflow._map_children(x, deep) if isinstance(x, ast.AST) else x
+  return deep(e)
+
+
+def _scale_shape(e):
+  """|rescale| * sqrt(var_params * t^2 + t * sigma^2), in any order of the commutative operands and under shape wrappers."""
+  import sympy
+  from mmsa import sym
+  try:
+    x = _strip_shape(e)
+
+    def leaf(n_):
+      if isinstance(n_, ast.Call) and norm(n_.func) in ('np.abs', 'abs', 'np.absolute', 'np.fabs') and len(n_.args) == 1:
+        return sympy.Abs(sym.to_sym(n_.args[0], leaf, POS))
+      if isinstance(n_, ast.Call) and norm(n_.func) in ('np.sqrt', 'math.sqrt') and len(n_.args) == 1:
+        return sympy.sqrt(sym.to_sym(n_.args[0], leaf, POS))
+      if isinstance(n_, ast.Call) and norm(n_.func) in ('np.square',) and len(n_.args) == 1:
+        return sym.to_sym(n_.args[0], leaf, POS) ** 2
+      return None
+    POS = ('one_to_t', 'var_params', 'self.pre_period_model.scale')
+    got = sym.to_sym(x, leaf, POS)
+    r, t, v, s2 = sym.symbol('rescale'), sym.symbol('one_to_t', True), sym.symbol('var_params', True), sym.symbol('self.pre_period_model.scale', True)
+    want = sympy.Abs(r) * sympy.sqrt(v * t ** 2 + t * s2)
+    return sympy.simplify(got ** 2 - want ** 2) == 0 and set(map(str, got.free_symbols)) <= {'rescale', 'one_to_t', 'var_params', 'self.pre_period_model.scale'} \
+        and got.has(sympy.Abs)
+  except Exception:
+    return False
+
+
 def distribution_rules(repo, rep, prefix):
   """R4 (scale sign) and R5 (variance shape) of TBR.causal_cumulative_distribution."""
   cls = repo.cls('tbr.TBR')
@@ -301,9 +383,15 @@ def distribution_rules(repo, rep, prefix):
     n_t += 1
     df = au.arg(call, 0, 'df')
     loc, scale = au.kwarg(call, 'loc'), au.kwarg(call, 'scale')
-    dft = norm(rd.expand(r, df)[0]) if df is not None else ''
-    rep.check(dft == 'self.pre_period_model.df_resid', prefix + 'R5/posterior-shape', 'degrees of freedom = residual d.f. of the pre-period fit (n_pre - 2)', f.qualname,
-              'df=%s' % dft, 'the t distribution uses df=%s instead of the residual degrees of freedom of the pre-period regression' % dft, f.loc(call))
+    if any(k.arg is None for k in call.keywords) or any(isinstance(a_, ast.Starred) for a_ in call.args):
+      rep.undecided(prefix + 'R5/posterior-shape', 'frozen t distribution', 'its arguments are passed through */** unpacking: %s' % norm(call)[:60], f.loc(call))
+      continue
+    dfx = rd.expand(r, df)[0] if df is not None else None
+    dft = norm(dfx) if dfx is not None else ''
+    v_, al_ = au.verdict_text(dft == 'self.pre_period_model.df_resid', dfx, DVOC) if dfx is not None else (False, [])
+    rep.check3(v_, prefix + 'R5/posterior-shape', 'degrees of freedom = residual d.f. of the pre-period fit (n_pre - 2)', f.qualname,
+               'df=%s' % dft, 'the t distribution uses df=%s instead of the residual degrees of freedom of the pre-period regression' % dft, f.loc(call),
+               why_open='df=%s reads unresolved names (%s)' % (dft[:40], ', '.join(al_)))
     if scale is None or loc is None:
       rep.violation(prefix + 'R5/posterior-shape', f.qualname, norm(call)[:100], 'the posterior is built without loc/scale', f.loc(call))
       continue
@@ -340,16 +428,26 @@ def distribution_rules(repo, rep, prefix):
       st = key_
       ok_scale = re.fullmatch(r'(np\.abs|abs)\(rescale\) \* np\.sqrt\(var_params \* one_to_t \*\* 2 \+ one_to_t \* self\.pre_period_model\.scale\)\.flatten\(\)', st) is not None or \
           re.fullmatch(r'(np\.abs|abs)\(rescale\) \* np\.sqrt\(one_to_t \*\* 2 \* var_params \+ one_to_t \* self\.pre_period_model\.scale\)\.flatten\(\)', st) is not None
-      rep.check(ok_scale, prefix + 'R5/posterior-shape', 'variance = t^2 * (parameter variance) + t * sigma^2, scaled by |rescale|', f.qualname, 'scale = ' + st[:160],
-                'the posterior scale `%s` is not |rescale| * sqrt(t^2 * Q(t) + t * sigma^2) (Kerman 2017, eq. 5)' % st[:140], f.loc(call))
+      sx_ = rd.expand(snode, sbase, keep=('rescale', 'one_to_t', 'var_params', 'causal_response'))[0]
+      if not ok_scale:
+        ok_scale = _scale_shape(sx_)
+      v_, al_ = au.verdict_text(ok_scale, sx_, DVOC)
+      rep.check3(v_, prefix + 'R5/posterior-shape', 'variance = t^2 * (parameter variance) + t * sigma^2, scaled by |rescale|', f.qualname, 'scale = ' + st[:160],
+                 'the posterior scale `%s` is not |rescale| * sqrt(t^2 * Q(t) + t * sigma^2) (Kerman 2017, eq. 5)' % st[:140], f.loc(call),
+                 why_open='the scale `%s` reads unresolved names (%s)' % (st[:60], ', '.join(al_)))
     seen_b = set()
     for lbase, lnode, _ in lb:
       lt = norm(rd.expand(lnode, lbase, keep=('rescale', 'causal_response'))[0])
       if lt in seen_b:
         continue
       seen_b.add(lt)
-      rep.check(lt == 'rescale * np.array(np.cumsum(causal_response)).flatten()', prefix + 'R5/posterior-shape', 'location = rescale * cumulative causal effect', f.qualname,
-                'loc = ' + lt[:120], 'the posterior location `%s` is not rescale * cumsum(causal effect)' % lt[:100], f.loc(call))
+      lx = rd.expand(lnode, lbase, keep=('rescale', 'causal_response'))[0]
+      okl = lt == 'rescale * np.array(np.cumsum(causal_response)).flatten()' or \
+          re.fullmatch(r'rescale \* (np\.cumsum\(causal_response\)|causal_response\.cumsum\(\))', norm(_strip_shape(lx))) is not None
+      v_, al_ = au.verdict_text(okl, lx, DVOC)
+      rep.check3(v_, prefix + 'R5/posterior-shape', 'location = rescale * cumulative causal effect', f.qualname,
+                 'loc = ' + lt[:120], 'the posterior location `%s` is not rescale * cumsum(causal effect)' % lt[:100], f.loc(call),
+                 why_open='the location `%s` reads unresolved names (%s)' % (lt[:60], ', '.join(al_)))
   rep.floor('frozen t distributions returned', n_t, 1)
   # pieces: one_to_t, var_params (quadratic form of the cumulative mean regressor), causal_response
   def single(name):
@@ -371,9 +469,15 @@ def distribution_rules(repo, rep, prefix):
     return dataflow._map_children(e, core_deep) if isinstance(e, ast.AST) else e
 
   o = list(single('one_to_t'))
-  o_txt = norm(core(rd.expand(o[0], o[0].ast.value, keep=('len_test',))[0])) if o else 'missing'
-  rep.check(bool(o) and o_txt == 'np.arange(1, len_test + 1)', prefix + 'R5/posterior-shape', 't runs over 1..T', f.qualname,
-            norm(o[0].ast)[:80] if o else 'missing', 'the day counter is `%s`, not 1..T' % (norm(o[0].ast.value) if o else 'missing'), f.loc())
+  if not o:
+    rep.undecided(prefix + 'R5/posterior-shape', 't runs over 1..T', 'no local named one_to_t: the day counter is not in the recognised form', f.loc())
+  else:
+    ox = core(rd.expand(o[0], o[0].ast.value, keep=('len_test',))[0])
+    o_txt = norm(ox)
+    v_, al_ = au.verdict_text(o_txt in ('np.arange(1, len_test + 1)', 'np.arange(1, 1 + len_test)', 'np.arange(len_test) + 1', '1 + np.arange(len_test)'), ox, DVOC)
+    rep.check3(v_, prefix + 'R5/posterior-shape', 't runs over 1..T', f.qualname,
+               norm(o[0].ast)[:80], 'the day counter is `%s`, not 1..T' % norm(o[0].ast.value), f.loc(),
+               why_open='the day counter `%s` reads unresolved names (%s)' % (o_txt[:60], ', '.join(al_)))
   # the per-day quadratic form m_t' V m_t: loop form  var_t = M[t,] @ V @ M[t,].T  or comprehension form  [r @ V @ r.T for r in M]
   quad = None     # (node, M expr, V expr)
   for n in g.nodes:
@@ -402,42 +506,59 @@ def distribution_rules(repo, rep, prefix):
     qn, M, V = quad
     keepn = ('t', 'one_to_t', 'cntrl_mat')
     cm = rd.single_def(qn, 'cntrl_mat')
-    cmt = norm(rd.expand(cm.node, cm.value, keep=('periods',))[0]) if cm is not None and cm.value is not None else ''
-    rep.check(cmt == 'self._design_matrix(self._make_period_index(periods))', prefix + 'R5/posterior-shape', 'design rows are (1, control) of the analysed periods', f.qualname,
-              'cntrl_mat = ' + cmt[:100], 'the design rows used for the parameter variance are `%s`' % cmt[:100], f.loc())
-    mt = norm(core_deep(rd.expand(qn, M, keep=keepn)[0]))
-    vt_ = norm(core_deep(rd.expand(qn, V, keep=keepn)[0]))
-    okq = mt == 'cntrl_mat.cumsum() / one_to_t' and vt_ == 'self.pre_period_model.cov_params()'
-    rep.check(okq, prefix + 'R5/posterior-shape', 'parameter variance = m_t\' V m_t with m_t the running mean of the design rows and V the OLS covariance', f.qualname,
+    cmx = rd.expand(cm.node, cm.value, keep=('periods',))[0] if cm is not None and cm.value is not None else None
+    cmt = norm(cmx) if cmx is not None else ''
+    v_, al_ = au.verdict_text(cmt == 'self._design_matrix(self._make_period_index(periods))', cmx, DVOC) if cmx is not None else (None, ['cntrl_mat'])
+    rep.check3(v_, prefix + 'R5/posterior-shape', 'design rows are (1, control) of the analysed periods', f.qualname,
+               'cntrl_mat = ' + cmt[:100], 'the design rows used for the parameter variance are `%s`' % cmt[:100], f.loc(),
+               why_open='the design rows `%s` read unresolved names (%s)' % (cmt[:60], ', '.join(al_)))
+    mx, vx_ = core_deep(rd.expand(qn, M, keep=keepn)[0]), core_deep(rd.expand(qn, V, keep=keepn)[0])
+    mt = norm(mx)
+    vt_ = norm(vx_)
+    okq = mt in ('cntrl_mat.cumsum() / one_to_t', 'np.cumsum(cntrl_mat) / one_to_t', 'cntrl_mat.cumsum(0) / one_to_t', 'np.cumsum(cntrl_mat, 0) / one_to_t') \
+        and vt_ == 'self.pre_period_model.cov_params()'
+    al_ = au.aliens(mx, DVOC) + au.aliens(vx_, DVOC)
+    rep.check3(True if okq else (None if al_ else False), prefix + 'R5/posterior-shape', 'parameter variance = m_t\' V m_t with m_t the running mean of the design rows and V the OLS covariance', f.qualname,
               'rows of %s in %s' % (mt[:100], vt_[:80]),
               'the parameter-variance term is the quadratic form of the rows of `%s` in `%s`, not of the running mean of the control design rows in the OLS covariance matrix' % (mt[:120], vt_[:80]),
-              f.loc(qn.ast))
+              f.loc(qn.ast), why_open='the quadratic form reads unresolved names (%s)' % ', '.join(al_))
   else:
     rep.undecided(prefix + 'R5/posterior-shape', 'var_t', 'per-day quadratic form not found', f.loc())
   cr = list(single('causal_response'))
-  rep.check(bool(cr) and norm(cr[0].ast.value) == 'self.causal_effect(periods)', prefix + 'R5/posterior-shape', 'the effect series is causal_effect(periods)', f.qualname,
-            norm(cr[0].ast)[:80] if cr else 'missing', 'the cumulative effect is not built from causal_effect(periods)', f.loc())
+  if not cr:
+    rep.undecided(prefix + 'R5/posterior-shape', 'the effect series is causal_effect(periods)', 'no local named causal_response: the effect series is not in the recognised form', f.loc())
+  else:
+    v_, al_ = au.verdict_text(norm(cr[0].ast.value) in ('self.causal_effect(periods)', 'self.causal_effect(periods=periods)'), cr[0].ast.value, DVOC)
+    rep.check3(v_, prefix + 'R5/posterior-shape', 'the effect series is causal_effect(periods)', f.qualname,
+               norm(cr[0].ast)[:80], 'the cumulative effect is not built from causal_effect(periods)', f.loc(),
+               why_open='the effect series `%s` reads unresolved names (%s)' % (norm(cr[0].ast.value)[:60], ', '.join(al_)))
   ce = cls.methods.get('causal_effect')
   if ce is not None:
     rep.fn(ce)
     c2 = FuncCtx.of(ce)
     for n in c2.g.nodes:
       if n.kind == 'return' and n.ast.value is not None:
-        t = norm(c2.rd.expand(n, n.ast.value, keep=('periods',))[0])
+        tx = c2.rd.expand(n, n.ast.value, keep=('periods',))[0]
+        t = norm(tx)
         ok = t == 'self._response_vector(self._make_period_index(periods)) - self.predict(self._design_matrix(self._make_period_index(periods)))'
-        rep.check(ok, prefix + 'R5/posterior-shape', 'causal effect = observed treatment - counterfactual prediction', ce.qualname, t[:160],
-                  'causal_effect returns `%s`, not observed minus predicted' % t[:140], ce.loc(n.ast))
+        v_, al_ = au.verdict_text(ok, tx, DVOC)
+        rep.check3(v_, prefix + 'R5/posterior-shape', 'causal effect = observed treatment - counterfactual prediction', ce.qualname, t[:160],
+                   'causal_effect returns `%s`, not observed minus predicted' % t[:140], ce.loc(n.ast),
+                   why_open='causal_effect returns `%s`, which reads unresolved names (%s)' % (t[:60], ', '.join(al_)))
   fm = cls.methods.get('_fit_pre_period_model')
   if fm is not None:
     rep.fn(fm)
     c3 = FuncCtx.of(fm)
     for n in c3.g.nodes:
       if n.kind == 'stmt' and isinstance(n.ast, ast.Assign) and norm(n.ast.targets[0]) == 'self.pre_period_model':
-        t = norm(c3.rd.expand(n, n.ast.value)[0])
+        tx = c3.rd.expand(n, n.ast.value)[0]
+        t = norm(tx)
         pi = "self.analysis_data[self.df_names.period] == self.periods.pre"
         ok = t == 'sm.OLS(self._response_vector(%s).values, self._design_matrix(%s).values).fit()' % (pi, pi)
-        rep.check(ok, prefix + 'R5/posterior-shape', 'the model is the OLS of pre-period treatment on (1, control)', fm.qualname, t[:160],
-                  'the pre-period model is `%s`' % t[:140], fm.loc(n.ast))
+        v_, al_ = au.verdict_text(ok, tx, DVOC)
+        rep.check3(v_, prefix + 'R5/posterior-shape', 'the model is the OLS of pre-period treatment on (1, control)', fm.qualname, t[:160],
+                   'the pre-period model is `%s`' % t[:140], fm.loc(n.ast),
+                   why_open='the pre-period model `%s` reads unresolved names (%s)' % (t[:60], ', '.join(al_)))
 
 
 def summary_rules(repo, rep, prefix, level_iv=None):
@@ -456,21 +577,50 @@ def summary_rules(repo, rep, prefix, level_iv=None):
     return
   node, d = dicts[0]
   cols = {au.const(k)[1]: v for k, v in zip(d.keys, d.values)}
+  # the report may be completed by item assignments `report['col'] = ...` after the display
+  dvar = norm(node.ast.targets[0]) if isinstance(node.ast.targets[0], ast.Name) else None
+  opaque_dict = any(k is None for k in d.keys)
+  col_nodes = {c: node for c in cols}
+  if dvar:
+    for n_ in g.nodes:
+      if n_.kind == 'stmt' and isinstance(n_.ast, ast.Assign):
+        for t_ in n_.ast.targets:
+          if isinstance(t_, ast.Subscript) and norm(t_.value) == dvar:
+            ok_, k_ = au.const(t_.slice)
+            if ok_ and isinstance(k_, str):
+              cols.setdefault(k_, n_.ast.value)
+              col_nodes.setdefault(k_, n_)
+            else:
+              opaque_dict = True
+      for e_ in ctx.node_exprs(n_):
+        for c_ in au.calls_in(e_):
+          if isinstance(c_.func, ast.Attribute) and norm(c_.func.value) == dvar and c_.func.attr in ('update', 'setdefault'):
+            opaque_dict = True
   dname = None
+  vocab = {'ndates', 'alpha', 'pupper', 'threshold', 'level', 'dates_ones', 'rescale', 'tails'}
   for c in ('estimate', 'precision', 'lower', 'upper', 'scale', 'probability'):
     if c not in cols:
-      rep.violation(prefix + 'R2/one-distribution', f.qualname, 'column %s missing' % c, 'the summary has no %s column' % c, f.loc(d))
+      if opaque_dict:
+        rep.undecided(prefix + 'R2/one-distribution', 'column %s' % c, 'the report dictionary is completed in a form that is not followed (computed keys / update)', f.loc(d))
+      else:
+        rep.violation(prefix + 'R2/one-distribution', f.qualname, 'column %s missing' % c, 'the summary has no %s column' % c, f.loc(d))
       continue
-    names = {x.id for x in ast.walk(cols[c]) if isinstance(x, ast.Name)} - {'np', 'ndates', 'alpha', 'pupper', 'threshold', 'level', 'dates_ones'}
+    names = {x.id for x in ast.walk(cols[c]) if isinstance(x, ast.Name)} - {'np'} - vocab
     if len(names) == 1:
       dname = dname or names.copy().pop()
-    rep.check(names == {dname}, prefix + 'R2/one-distribution', 'column %s derives from the one posterior object' % c, f.qualname, '%s: %s' % (c, norm(cols[c])[:80]),
-              'summary column %s is computed from %s, not from the posterior object %s the other columns use' % (c, sorted(names), dname), f.loc(cols[c]))
+  for c in list(cols):
+    if c in col_nodes and dname:
+      cols[c] = rd.expand(col_nodes[c], cols[c], keep=tuple(vocab | {dname}))[0]
   if dname:
     dd = rd.single_def(node, dname)
-    t = norm(dd.value) if dd is not None and dd.value is not None else ''
-    rep.check(t == 'self.causal_cumulative_distribution(rescale=rescale)', prefix + 'R2/one-distribution', 'the posterior object is causal_cumulative_distribution(rescale=rescale)',
-              f.qualname, '%s = %s' % (dname, t[:80]), 'the summary posterior is `%s`: the rescale factor (or the distribution) is not the requested one' % t[:80], f.loc())
+    t = norm(rd.expand(dd.node, dd.value, keep=('rescale',))[0]) if dd is not None and dd.value is not None else ''
+    okd = t in ('self.causal_cumulative_distribution(rescale=rescale)', 'self.causal_cumulative_distribution(periods=None, rescale=rescale)')
+    v_, al_ = au.verdict_text(okd, dd.value if dd is not None and dd.value is not None else ast.Constant(value=None), vocab)
+    if dd is None or dd.value is None:
+      v_ = None
+    rep.check3(v_, prefix + 'R2/one-distribution', 'the posterior object is causal_cumulative_distribution(rescale=rescale)',
+               f.qualname, '%s = %s' % (dname, t[:80]), 'the summary posterior is `%s`: the rescale factor (or the distribution) is not the requested one' % t[:80], f.loc(),
+               why_open='the posterior object `%s` is built as `%s`, which reads unresolved names (%s)' % (dname, t[:60], ', '.join(al_)))
     want = {
         'estimate': r'%s\.(mean|median)\(\)' % dname,
         'lower': r'%s\.ppf\(alpha\)(\.reshape\(ndates\))?' % dname,
@@ -482,8 +632,13 @@ def summary_rules(repo, rep, prefix, level_iv=None):
     for c, pat in want.items():
       if c in cols:
         t = norm(cols[c])
-        rep.check(re.fullmatch(pat, t) is not None, prefix + 'R2/one-distribution', 'column %s = %s' % (c, t[:60]), f.qualname, '%s: %s' % (c, t[:100]),
-                  'summary column %s is `%s`, which is not the documented quantity (median / quantiles / |lower - median| / scale / P(effect > threshold))' % (c, t[:80]), f.loc(cols[c]))
+        v_, al_ = au.verdict_text(re.fullmatch(pat, t) is not None, cols[c], vocab | {dname})
+        rep.check3(v_, prefix + 'R2/one-distribution', 'column %s = %s' % (c, t[:60]), f.qualname, '%s: %s' % (c, t[:100]),
+                   'summary column %s is `%s`, which is not the documented quantity (median / quantiles / |lower - median| / scale / P(effect > threshold)) of the posterior %s' % (c, t[:80], dname),
+                   f.loc(cols[c]) if hasattr(cols[c], 'lineno') else f.loc(),
+                   why_open='column %s is `%s`, which reads names the expansion did not resolve (%s)' % (c, t[:60], ', '.join(al_)))
+  else:
+    rep.undecided(prefix + 'R2/one-distribution', 'TBR.summary', 'no column of the report is a function of a single posterior object', f.loc(d))
 
   def sites(ctx_, rd_, reach):
     out = []
